@@ -143,18 +143,46 @@ func infoFull(info *parse.PkgInfo) J {
 
 var multiDefRx = regexp.MustCompile(`target has multiple definitions`)
 
-func classifyParseErr(err error) J {
-	msg := err.Error()
+var (
+	multiDefLineRx = regexp.MustCompile(`(?m)^"([^"]*)" target has multiple definitions: (.*)$`)
+	aliasDupRx     = regexp.MustCompile(`alias "([^"]*)" duplicates existing target\(s\): (.*)`)
+	caseLineRx     = regexp.MustCompile(`(?m)^  (\S.*)$`)
+)
+
+// classifyMsg: the class of a collision report and the definitions it names, in a canonical order
+func classifyMsg(msg string) J {
+	sortedJoin := func(s string) string {
+		parts := strings.Split(strings.TrimSpace(s), ", ")
+		sort.Strings(parts)
+		return strings.Join(parts, ", ")
+	}
 	switch {
 	case strings.Contains(msg, "Build targets must be case insensitive"):
-		return J{"error": "caseConflict"}
+		named := []string{}
+		i := strings.Index(msg, "targets conflict:")
+		for _, m := range caseLineRx.FindAllStringSubmatch(msg[i:], -1) {
+			named = append(named, sortedJoin(m[1]))
+		}
+		sort.Strings(named)
+		return J{"error": "caseConflict", "named": named}
 	case multiDefRx.MatchString(msg):
-		return J{"error": "multipleDefs"}
+		named := []string{}
+		for _, m := range multiDefLineRx.FindAllStringSubmatch(msg, -1) {
+			named = append(named, m[1]+": "+sortedJoin(m[2]))
+		}
+		sort.Strings(named)
+		return J{"error": "multipleDefs", "named": named}
 	case strings.Contains(msg, "duplicates existing target"):
-		return J{"error": "aliasDup"}
+		named := []string{}
+		if m := aliasDupRx.FindStringSubmatch(msg); m != nil {
+			named = append(named, m[1]+": "+sortedJoin(m[2]))
+		}
+		return J{"error": "aliasDup", "named": named}
 	}
-	return J{"error": "other: " + msg}
+	return J{"error": "other: " + strings.TrimSpace(msg)}
 }
+
+func classifyParseErr(err error) J { return classifyMsg(err.Error()) }
 
 func infoDump(info *parse.PkgInfo) J {
 	sort.Sort(info.Funcs)
